@@ -370,7 +370,10 @@ struct Ex {
           E["rhs"]=path(I->getInit()); if (auto v = constVal(I->getInit()); v.kind()!=json::Value::Null) E["const"]=v; int re = evOf(I->getInit()); if (re>=0) E["rhs_ev"]=re;
           evs.push_back(std::move(E)); continue;
         }
-        if (auto AD = El.getAs<CFGAutomaticObjDtor>()) { json::Object E; E["k"]="dtor"; E["var"]=AD->getVarDecl()->getNameAsString(); E["type"]=AD->getVarDecl()->getType().getAsString(); E["id"]=next++; E["loc"]=loc(AD->getTriggerStmt()?AD->getTriggerStmt()->getEndLoc():AD->getVarDecl()->getLocation()); evs.push_back(std::move(E)); continue; }
+        if (auto AD = El.getAs<CFGAutomaticObjDtor>()) { json::Object E; E["k"]="dtor"; E["var"]=AD->getVarDecl()->getNameAsString(); E["type"]=AD->getVarDecl()->getType().getAsString(); E["id"]=next++; E["loc"]=loc(AD->getTriggerStmt()?AD->getTriggerStmt()->getEndLoc():AD->getVarDecl()->getLocation());
+          // a scope guard written in the library (its destructor has a body there): the destructor can be expanded like a call on the variable
+          { QualType VT = AD->getVarDecl()->getType().getNonReferenceType(); if (!AD->getVarDecl()->getType()->isReferenceType()) if (auto *VRD = VT->getAsCXXRecordDecl()) if (auto *DD = VRD->getDestructor()) if (DD->isUserProvided()) { auto *P = patternOf(DD); if (P && P->hasBody() && inRoot(P->getLocation())) { calleeInfo(E, DD); E["recv"] = "local:" + AD->getVarDecl()->getNameAsString(); } } }
+          evs.push_back(std::move(E)); continue; }
         auto SE = El.getAs<CFGStmt>(); if (!SE) continue;
         const Stmt *S = SE->getStmt(); int id = next++; ids[S] = id;
         json::Object E; E["id"] = id; E["loc"] = loc(S->getBeginLoc()); bool keep = false;
